@@ -220,6 +220,26 @@ def run(ctx):
             ctx.known(kf["what"])
     if known and not any(kf.get("status") == "known" and kf.get("class") == "zone-limit" for kf in common.load_known("C07")):
         fails.append((ops3[63], 0, "the 64th and later zones of one process are converted as if they were UTC"))
+    # ---- two recorded limits of the conversion, shown on events (a fresh harness process: the zone numbers above are used up)
+    pcal = lambda z, v: "BEGIN:VCALENDAR\nBEGIN:VEVENT\nUID:p\nSUMMARY:x\nDTSTART;TZID=%s:%s\nEND:VEVENT\nEND:VCALENDAR\n" % (z, v)
+    probes = [("gap-overlap", "America/New_York", "20070311T023000", (2007, 3, 11, 7, 30, 0), "a local time that does not exist is read with the offset before the gap (RFC 5545 3.3.5)"),
+              ("gap-overlap", "Europe/Berlin", "20071028T023000", (2007, 10, 28, 0, 30, 0), "a local time that exists twice is its first occurrence (RFC 5545 3.3.5)"),
+              ("after-2037", "Europe/Berlin", "20400615T120000", (2040, 6, 15, 10, 0, 0), "summer time in 2040"),
+              ("after-2037", "Asia/Kolkata", "20400615T120000", (2040, 6, 15, 6, 30, 0), "a zone without changes, in 2040")]
+    pout, _, _ = ctx.impl(sexe, ["p.occ %s 1" % pcal(z, v).encode().hex() for _, z, v, _, _ in probes])
+    seen = {}
+    for k, (cls_, z, v, want, what) in enumerate(probes):
+        m_ = re.search(r"occ=([0-9a-f]{16})", pout[k] if k < len(pout) else "")
+        got = unhex16(m_.group(1))[:6] if m_ else None
+        if got != want:
+            seen.setdefault(cls_, "DTSTART;TZID=%s:%s (%s) is UTC %s, echse says %s" % (z, v, what, want, got))
+    ctx.cov["conversion_probes"] = dict(seen) or "as demanded"
+    knownc = {kf.get("class"): kf for kf in common.load_known("C07") if kf.get("status") == "known"}
+    for c_, why_ in seen.items():
+        if c_ in knownc:
+            ctx.known(knownc[c_]["what"])
+        else:
+            fails.append(("p.occ", 0, why_))
     seq_ops = [o for o in ops2 if o.startswith("z.seq")]
     seq_impl = [a for o, a in zip(ops2, out2) if o.startswith("z.seq")]
     model = ctx.model(seq_ops)
